@@ -253,7 +253,10 @@ class NpCalls:
     def np_transpose(self, interp, st, args, kwargs, node):
         x = as_array(args[0])
         perm = self.arg(args, kwargs, 1, 'axes')
-        return self.transpose(x, perm.elts if (perm is not None and perm.elts is not None) else []).w(deps=self.deps_of(args, kwargs))
+        out = self.transpose(x, perm.elts if (perm is not None and perm.elts is not None) else []).w(deps=self.deps_of(args, kwargs))
+        if perm is None:
+            out = out.w(transposed=None if x.transposed else True)
+        return out
 
     def np_roll(self, interp, st, args, kwargs, node):
         x = as_array(args[0])
@@ -275,6 +278,10 @@ class NpCalls:
         d = self.deps_of(args, kwargs)
         if 'out' in kwargs:
             interp.emit('store', node, kind='out=', base=kwargs['out'], index=None, value=None, stmt=None)
+        if 'where' in kwargs:
+            # masked ufunc: entries where the mask is false keep the content of `out` (uninitialised without it)
+            o = kwargs.get('out')
+            interp.emit('masked_ufunc', node, fn=name, mask=kwargs['where'], out=o, fill=o.fill if o is not None else None)
         g = x.geo
         m = mono_of(x)
         out = x.only('ty', 'axes', 'prov').w(deps=d, store='fresh' if x.ty == 'ndarray' else None, fn=(name, x))
@@ -413,6 +420,14 @@ class NpCalls:
                 out = out.w(imgcorr_raw=('single', xa))
         return out
 
+    def np_searchsorted(self, interp, st, args, kwargs, node):
+        # np.searchsorted(edges, x, side='left') == np.digitize(x, edges, right=True); side='right' == right=False
+        a, v = self.arg(args, kwargs, 0, 'a'), self.arg(args, kwargs, 1, 'v')
+        side = kwargs.get('side') or (args[2] if len(args) > 2 else None)
+        s = cval(side) if (side is not None and has_const(side)) else 'left'
+        kw = {'right': const(s == 'left')}
+        return self.np_digitize(interp, st, [v, a], kw, node)
+
     def np_histogram(self, interp, st, args, kwargs, node):
         d = self.deps_of(args, kwargs)
         x = as_array(args[0])
@@ -530,6 +545,15 @@ class NpCalls:
         new_axes, removed = removed_axes(x, axis)
         g = x.geo
         ng = None
+        if g is not None and g[0] == 'LATMAT':
+            # rows are the lattice vectors: row norms (axis=1 / -1) are the cell lengths a, b, c
+            rows = (axis in (1, -1)) != bool(x.transposed)
+            if axis in (0, 1, -1):
+                if not rows:
+                    interp.emit('latmat_colnorm', node, arg=x, axis=axis)
+                lens = AV(ty='ndarray', geo=('DIST',), axes=(XYZ,), deps=self.deps_of(args, kwargs), store='fresh',
+                          mono=Mono.atom('len', (1, 0, 0), {'ang': 1}), tuple_of='lattice.lengths' if rows else 'lattice.column_norms')
+                return lens
         if is_fractional(g) or (g is not None and g[0] == 'SYMIMG'):
             interp.emit('euclid_on_frac', node, what='Euclidean norm of fractional coordinates', arg=x)
         elif is_cart(g):
